@@ -40,6 +40,11 @@ type fsm struct {
 	closeCh   chan struct{}
 	doneCh    chan struct{}
 
+	// unreportedErr is an error this FSM was about to report when it was
+	// disabled instead. It is written by the FSM goroutine before doneCh is
+	// closed and may be read by the peer goroutine once stop() has returned.
+	unreportedErr error
+
 	// timers
 	connectRetryTimer *time.Timer
 	holdTimer         *time.Timer
@@ -183,6 +188,9 @@ func (f *fsm) run() {
 			// if an error occurred we signal it to the peer
 			select {
 			case <-f.closeCh:
+				// we are being disabled; the peer picks the error up once we
+				// have stopped, so that a protocol error is never lost
+				f.unreportedErr = err
 				t = newStateTransition(t.to, disabledState)
 			case f.peer.getFSMErrorCh(f) <- err:
 				t = newStateTransition(t.to, desired)
